@@ -30,7 +30,16 @@ fn profile() -> gen::Profile {
     p
 }
 
-const INJECTIONS: &[&str] = &["var = 1;", ")", "1 +;", "x y;", "fn (a) { }", "print(;", "class { }", "var v 3;", "@"];
+const INJECTIONS: &[&str] = &[
+    "var = 1;", ")", "1 +;", "x y;", "fn (a) { }", "print(;", "class { }", "var v 3;", "@",
+    // rules of the language rather than of the grammar: each is an error wherever a statement may stand
+    "break;", "continue;", "self;", "Self;", "super.x;", "return 1;", "{ var zq = zq; }", "1 = 2;",
+    "class Zq1 { #[static] fn s() { return self; } }",
+    "class Zq2 { fn m(self) { return super.m(); } }",
+    "class Zq3 { #[constructor] fn new(self) { return 1; } }",
+    "class Zq4 { fn m() { } }",
+    "{ var zr = 1; var zr = 2; }",
+];
 
 fn kind_of_class(name: &str) -> &'static str {
     match name {
@@ -259,7 +268,7 @@ impl Property for C17 {
     }
 
     fn rule(&self) -> String {
-        "cases: (runtime_traces) generated programs with few guards, laid out with random blank lines and comments, whose uncaught error arises in functions, methods, static methods, constructors, lambdas and fibers at call depths up to the frame limit; (module_traces) import graphs whose module functions fail when called from main, so traces cross modules; (compile_lines) valid generated programs with one definite syntax error (10 kinds) injected as a line of its own before a top-level statement, optionally preceded by a two-line string literal; (host_natives) a host-defined native returning each ErrorKind with several message texts, called directly, from a function and from a method, first caught, then uncaught. Oracle: reference interpreter for class, kind and the trace (one entry per active call, innermost first, with module, function name incl. lambda-N numbering, and the line the printer gave the executing statement); relation X-17 for texts: a twin program wraps the failing top-level statement in try/catch and prints type(e) and e.context, and the uncaught report must read 'Unhandled <that class>: <that context>' with the kind that class maps to; the first compile message must name the injected line; host errors must be catchable as the class of their kind with the host's message as context. Non-trivial: a trace of >=3 frames, an injected error beyond line 3, or any host case; distinct by program text.".into()
+        "cases: (runtime_traces) generated programs with few guards, laid out with random blank lines and comments, whose uncaught error arises in functions, methods, static methods, constructors, lambdas and fibers at call depths up to the frame limit; (module_traces) import graphs whose module functions fail when called from main, so traces cross modules; (compile_lines) valid generated programs with one definite error (9 syntax errors and 13 violations of compile-time rules: break/continue outside a loop, self/Self/super outside a class, self in a static method, super without a superclass, return at top level, a value returned from an initialiser, a method without self, a local read in its own initialiser or declared twice, an invalid assignment target) injected as a line of its own before a top-level statement, optionally preceded by a two-line string literal; (host_natives) a host-defined native returning each ErrorKind with several message texts, called directly, from a function and from a method, first caught, then uncaught. Oracle: reference interpreter for class, kind and the trace (one entry per active call, innermost first, with module, function name incl. lambda-N numbering, and the line the printer gave the executing statement); relation X-17 for texts: a twin program wraps the failing top-level statement in try/catch and prints type(e) and e.context, and the uncaught report must read 'Unhandled <that class>: <that context>' with the kind that class maps to; the first compile message must name the injected line; host errors must be catchable as the class of their kind with the host's message as context. Non-trivial: a trace of >=3 frames, an injected error beyond line 3, or any host case; distinct by program text.".into()
     }
 
     fn assumptions(&self) -> Vec<String> {
